@@ -507,3 +507,190 @@ _SPECS['WRowMin'].py = lambda ex, st, row, lo, hi: _pc(ex).wrowmin(row, lo, hi)
 _SPECS['Dend'].py = lambda ex, st, p1e, p2e: _pc(ex).dend(p1e, p2e)
 _SPECS['FoldMin'].py = lambda ex, st, acc, row, lo, hi: _pc(ex).foldmin(acc, row, lo, hi)
 _SPECS['NdimOf'].py = _py_ndim_of
+
+
+# ---------------------------------------------------------------------------------------------
+# Minimum selection by argmin (dtw.warping_paths end-of-series psi): a cell that is minimal among
+# W(row, lo..hi) equals the fold WRowMin; a cell minimal among the last-column cells within psi_1e of the
+# corner equals the fold PsiCol.  Each from a lower-bound lemma and a greatest-lower-bound lemma.
+_v = z3.Const('am_v', Val)
+_j = z3.Int('am_j')
+_kk = z3.Int('am_k')
+
+
+def _nlt(a, b):
+    return z3.Not(vlt(a, b))
+
+
+induction_lemma(
+    'RowMinLower', _ctxc + [_row, _lo, _j], _hi, _lo + 1,
+    hyp=lambda k: z3.And(_lo <= _j, _j < k),
+    prop=lambda k: _nlt(Wf(*_ctxc, _row, _j), WRowMinf(*_ctxc, _row, _lo, k)),
+    patterns=lambda k: [z3.MultiPattern(WRowMinf(*_ctxc, _row, _lo, k), Wf(*_ctxc, _row, _j))],
+    doc='WRowMin(row, lo, hi) is a lower bound of W(row, lo..hi-1)', axioms=wrowmin_axioms() + order_axioms(), props=('C04',))
+induction_lemma(
+    'RowMinGreatest', _ctxc + [_row, _lo, _v], _hi, _lo + 1,
+    hyp=lambda k: z3.ForAll([_j], z3.Implies(z3.And(_lo <= _j, _j < k), _nlt(Wf(*_ctxc, _row, _j), _v)),
+                            patterns=[Wf(*_ctxc, _row, _j)]),
+    prop=lambda k: _nlt(WRowMinf(*_ctxc, _row, _lo, k), _v),
+    patterns=lambda k: [z3.MultiPattern(WRowMinf(*_ctxc, _row, _lo, k), vlt(WRowMinf(*_ctxc, _row, _lo, k), _v))],
+    doc='every lower bound of W(row, lo..hi-1) is below WRowMin(row, lo, hi)', axioms=wrowmin_axioms() + order_axioms(), props=('C04',))
+
+
+def _argminrow_axiom():
+    hyp = z3.And(_lo <= _kk, _kk < _hi,
+                 z3.ForAll([_j], z3.Implies(z3.And(_lo <= _j, _j < _hi), _nlt(Wf(*_ctxc, _row, _j), Wf(*_ctxc, _row, _kk))),
+                           patterns=[Wf(*_ctxc, _row, _j)]))
+    return [z3.ForAll(_ctxc + [_row, _lo, _hi, _kk], z3.Implies(hyp, Wf(*_ctxc, _row, _kk) == WRowMinf(*_ctxc, _row, _lo, _hi)),
+                      patterns=[z3.MultiPattern(WRowMinf(*_ctxc, _row, _lo, _hi), Wf(*_ctxc, _row, _kk))])]
+
+
+def _argminrow_obligations():
+    body = _argminrow_axiom()[0].body()
+    inst = z3.substitute_vars(body, *reversed(_ctxc + [_row, _lo, _hi, _kk]))
+    return [Obligation('lemma:ArgMinRow::from-bounds', 'lemma', [], inst, 'lemma:ArgMinRow', props=('C04',),
+                       note='a minimal cell equals the fold minimum (lower bound + greatest lower bound + trichotomy)',
+                       axioms=LEMMAS['RowMinLower'].axioms() + LEMMAS['RowMinGreatest'].axioms() + order_axioms() + [
+                           # make the comparison term of RowMinGreatest available
+                           z3.Or(vlt(WRowMinf(*_ctxc, _row, _lo, _hi), Wf(*_ctxc, _row, _kk)),
+                                 z3.Not(vlt(WRowMinf(*_ctxc, _row, _lo, _hi), Wf(*_ctxc, _row, _kk))))])]
+
+
+LEMMAS['ArgMinRow'] = Lemma('ArgMinRow', _argminrow_axiom, _argminrow_obligations,
+                            doc='np.argmin over W(row, lo..hi-1) selects the value WRowMin(row, lo, hi)')
+
+# ---- last column: PsiCol(p1e, k) folds the rows i < k with r-1-i <= p1e whose band reaches column c
+_p1e = z3.Int('am_p1e')
+_i = z3.Int('am_i')
+_R, _C, _Wd = _ctxc[2], _ctxc[5], _ctxc[6]
+
+
+def _incol(i, k):
+    return z3.And(0 <= i, i < k, _R - 1 - i <= _p1e)
+
+
+induction_lemma(
+    'PsiColLower', _ctxc + [_p1e, _i], _kk, 0,
+    hyp=lambda k: z3.And(_p1e != 0, _incol(_i, k), _C >= 1, _Wd >= 1, k <= _R),
+    prop=lambda k: _nlt(Wf(*_ctxc, _i + 1, _C), PsiColf(*_ctxc, _p1e, k)),
+    patterns=lambda k: [z3.MultiPattern(PsiColf(*_ctxc, _p1e, k), Wf(*_ctxc, _i + 1, _C))],
+    doc='PsiCol(p1e, k) is a lower bound of the last-column cells of the rows within psi_1e of the corner',
+    axioms=psicol_axioms() + w_axioms() + order_axioms(), props=('C04',))
+induction_lemma(
+    'PsiColGreatest', _ctxc + [_p1e, _v], _kk, 0,
+    hyp=lambda k: z3.And(_p1e != 0, k <= _R,
+                         z3.ForAll([_i], z3.Implies(_incol(_i, k), _nlt(Wf(*_ctxc, _i + 1, _C), _v)), patterns=[Wf(*_ctxc, _i + 1, _C)])),
+    prop=lambda k: _nlt(PsiColf(*_ctxc, _p1e, k), _v),
+    patterns=lambda k: [z3.MultiPattern(PsiColf(*_ctxc, _p1e, k), vlt(PsiColf(*_ctxc, _p1e, k), _v))],
+    doc='every lower bound of those cells is below PsiCol(p1e, k)', axioms=psicol_axioms() + order_axioms(), props=('C04',))
+
+
+def _argmincol_axiom():
+    # the cell at matrix row q (series row q-1) is minimal among the rows max(1, r-p1e) .. r of column c
+    q = z3.Int('am_q')
+    hyp = z3.And(_p1e != 0, _p1e <= _R, _C >= 1, _Wd >= 1, 1 <= _kk, _R - _p1e <= _kk, _kk <= _R,
+                 z3.ForAll([q], z3.Implies(z3.And(1 <= q, _R - _p1e <= q, q <= _R), _nlt(Wf(*_ctxc, q, _C), Wf(*_ctxc, _kk, _C))),
+                           patterns=[Wf(*_ctxc, q, _C)]))
+    return [z3.ForAll(_ctxc + [_p1e, _kk], z3.Implies(hyp, Wf(*_ctxc, _kk, _C) == PsiColf(*_ctxc, _p1e, _R)),
+                      patterns=[z3.MultiPattern(PsiColf(*_ctxc, _p1e, _R), Wf(*_ctxc, _kk, _C))])]
+
+
+def _argmincol_obligations():
+    body = _argmincol_axiom()[0].body()
+    inst = z3.substitute_vars(body, *reversed(_ctxc + [_p1e, _kk]))
+    return [Obligation('lemma:ArgMinCol::from-bounds', 'lemma', [], inst, 'lemma:ArgMinCol', props=('C04',),
+                       note='a minimal last-column cell within psi_1e of the corner equals PsiCol(psi_1e, r)',
+                       axioms=LEMMAS['PsiColLower'].axioms() + LEMMAS['PsiColGreatest'].axioms() + order_axioms() + [
+                           z3.Or(vlt(PsiColf(*_ctxc, _p1e, _R), Wf(*_ctxc, _kk, _C)),
+                                 z3.Not(vlt(PsiColf(*_ctxc, _p1e, _R), Wf(*_ctxc, _kk, _C)))),
+                           # the candidate itself as (kk-1)+1
+                           Wf(*_ctxc, (_kk - 1) + 1, _C) == Wf(*_ctxc, _kk, _C)])]
+
+
+LEMMAS['ArgMinCol'] = Lemma('ArgMinCol', _argmincol_axiom, _argmincol_obligations,
+                            doc='np.argmin over the last-column cells within psi_1e of the corner selects PsiCol(psi_1e, r)')
+
+induction_lemma(
+    'PsiColZero', _ctxc, _kk, 0,
+    hyp=lambda k: z3.BoolVal(True),
+    prop=lambda k: PsiColf(*_ctxc, z3.IntVal(0), k) == vinf,
+    patterns=lambda k: [PsiColf(*_ctxc, z3.IntVal(0), k)],
+    doc='without psi_1e no last-column cell is a candidate', axioms=psicol_axioms(), props=('C04',))
+
+
+# ---- the same selection after the element-wise square root (keep_int_repr=False, squared-Euclidean inner distance)
+def sqrt_mono_axioms():
+    """IEEE: the correctly rounded square root is monotone (non-NaN operands)."""
+    x, y = z3.Consts('sm_x sm_y', Val)
+    return [z3.ForAll([x, y], z3.Implies(z3.Not(vlt(y, x)), z3.Not(vlt(vsqrt(y), vsqrt(x)))),
+                      patterns=[z3.MultiPattern(vsqrt(x), vsqrt(y))])]
+
+
+THEORIES['sqrtmono'] = sqrt_mono_axioms
+
+induction_lemma(
+    'RowMinGreatestSqrt', _ctxc + [_row, _lo, _v], _hi, _lo + 1,
+    hyp=lambda k: z3.ForAll([_j], z3.Implies(z3.And(_lo <= _j, _j < k), _nlt(vsqrt(Wf(*_ctxc, _row, _j)), _v)),
+                            patterns=[Wf(*_ctxc, _row, _j)]),
+    prop=lambda k: _nlt(vsqrt(WRowMinf(*_ctxc, _row, _lo, k)), _v),
+    patterns=lambda k: [z3.MultiPattern(WRowMinf(*_ctxc, _row, _lo, k), vlt(vsqrt(WRowMinf(*_ctxc, _row, _lo, k)), _v))],
+    doc='every lower bound of sqrt(W(row, lo..hi-1)) is below sqrt(WRowMin(row, lo, hi))', axioms=wrowmin_axioms() + order_axioms(),
+    props=('C04',))
+
+
+def _argminrow_sqrt_axiom():
+    hyp = z3.And(_lo <= _kk, _kk < _hi,
+                 z3.ForAll([_j], z3.Implies(z3.And(_lo <= _j, _j < _hi), _nlt(vsqrt(Wf(*_ctxc, _row, _j)), vsqrt(Wf(*_ctxc, _row, _kk)))),
+                           patterns=[Wf(*_ctxc, _row, _j)]))
+    return [z3.ForAll(_ctxc + [_row, _lo, _hi, _kk],
+                      z3.Implies(hyp, vsqrt(Wf(*_ctxc, _row, _kk)) == vsqrt(WRowMinf(*_ctxc, _row, _lo, _hi))),
+                      patterns=[z3.MultiPattern(WRowMinf(*_ctxc, _row, _lo, _hi), vsqrt(Wf(*_ctxc, _row, _kk)))])]
+
+
+def _argminrow_sqrt_obligations():
+    body = _argminrow_sqrt_axiom()[0].body()
+    inst = z3.substitute_vars(body, *reversed(_ctxc + [_row, _lo, _hi, _kk]))
+    a, b = vsqrt(WRowMinf(*_ctxc, _row, _lo, _hi)), vsqrt(Wf(*_ctxc, _row, _kk))
+    return [Obligation('lemma:ArgMinRowSqrt::from-bounds', 'lemma', [], inst, 'lemma:ArgMinRowSqrt', props=('C04',),
+                       note='a cell whose square root is minimal has the square root of the fold minimum',
+                       axioms=LEMMAS['RowMinLower'].axioms() + LEMMAS['RowMinGreatestSqrt'].axioms() + order_axioms() + sqrt_mono_axioms()
+                       + [z3.Or(vlt(a, b), z3.Not(vlt(a, b)))])]
+
+
+LEMMAS['ArgMinRowSqrt'] = Lemma('ArgMinRowSqrt', _argminrow_sqrt_axiom, _argminrow_sqrt_obligations,
+                                doc='np.argmin over sqrt(W(row, lo..hi-1)) selects sqrt(WRowMin(row, lo, hi))')
+
+induction_lemma(
+    'PsiColGreatestSqrt', _ctxc + [_p1e, _v], _kk, 0,
+    hyp=lambda k: z3.And(_p1e != 0, k <= _R, _nlt(vsqrt(vinf), _v),
+                         z3.ForAll([_i], z3.Implies(_incol(_i, k), _nlt(vsqrt(Wf(*_ctxc, _i + 1, _C)), _v)), patterns=[Wf(*_ctxc, _i + 1, _C)])),
+    prop=lambda k: _nlt(vsqrt(PsiColf(*_ctxc, _p1e, k)), _v),
+    patterns=lambda k: [z3.MultiPattern(PsiColf(*_ctxc, _p1e, k), vlt(vsqrt(PsiColf(*_ctxc, _p1e, k)), _v))],
+    doc='every lower bound of the square roots of those cells (and of sqrt(inf)) is below sqrt(PsiCol(p1e, k))',
+    axioms=psicol_axioms() + order_axioms(), props=('C04',))
+
+
+def _argmincol_sqrt_axiom():
+    q = z3.Int('am_q')
+    hyp = z3.And(_p1e != 0, _p1e <= _R, _C >= 1, _Wd >= 1, 1 <= _kk, _R - _p1e <= _kk, _kk <= _R,
+                 z3.ForAll([q], z3.Implies(z3.And(1 <= q, _R - _p1e <= q, q <= _R),
+                                           _nlt(vsqrt(Wf(*_ctxc, q, _C)), vsqrt(Wf(*_ctxc, _kk, _C)))),
+                           patterns=[Wf(*_ctxc, q, _C)]))
+    return [z3.ForAll(_ctxc + [_p1e, _kk], z3.Implies(hyp, vsqrt(Wf(*_ctxc, _kk, _C)) == vsqrt(PsiColf(*_ctxc, _p1e, _R))),
+                      patterns=[z3.MultiPattern(PsiColf(*_ctxc, _p1e, _R), vsqrt(Wf(*_ctxc, _kk, _C)))])]
+
+
+def _argmincol_sqrt_obligations():
+    body = _argmincol_sqrt_axiom()[0].body()
+    inst = z3.substitute_vars(body, *reversed(_ctxc + [_p1e, _kk]))
+    a, b = vsqrt(PsiColf(*_ctxc, _p1e, _R)), vsqrt(Wf(*_ctxc, _kk, _C))
+    return [Obligation('lemma:ArgMinColSqrt::from-bounds', 'lemma', [], inst, 'lemma:ArgMinColSqrt', props=('C04',),
+                       note='a last-column cell whose square root is minimal has the square root of PsiCol(psi_1e, r)',
+                       axioms=LEMMAS['PsiColLower'].axioms() + LEMMAS['PsiColGreatestSqrt'].axioms() + order_axioms() + sqrt_mono_axioms()
+                       + [z3.Or(vlt(a, b), z3.Not(vlt(a, b))), Wf(*_ctxc, (_kk - 1) + 1, _C) == Wf(*_ctxc, _kk, _C),
+                          # (term only) sqrt(inf) vs the candidate: decided by monotonicity at the top element
+                          z3.Or(vlt(vsqrt(vinf), b), z3.Not(vlt(vsqrt(vinf), b)))])]
+
+
+LEMMAS['ArgMinColSqrt'] = Lemma('ArgMinColSqrt', _argmincol_sqrt_axiom, _argmincol_sqrt_obligations,
+                                doc='np.argmin over the square roots of the last-column cells selects sqrt(PsiCol(psi_1e, r))')
